@@ -68,7 +68,7 @@ def batch(prop, tier, sd):
                                       zero_in_async=rng.choice([0, 0, 1, 2, 3])))
         for i in range(25 if quick else 100):
             out.append(ds.tree_decl(rng, 't%04d' % i, n=rng.randint(4, 7)))
-        for i in range(4 if quick else 24):
+        for i in range(4 if quick else 12):
             out.append(ds.wide_decl(rng, 'w%04d' % i, width=(rng.randint(11, 14) if i % 4 else rng.randint(8, 10)), sync_root=(i % 3 != 2)))
         # the requested type is a later result of a multi-result provider / a field of an expanded struct
         mr = []
@@ -103,11 +103,11 @@ def batch(prop, tier, sd):
         for i in range(40 if quick else 300):
             out.append(ds.sources_decl(rng, 's%04d' % i, p_fallible=rng.choice([0.0, 0.5, 0.8]), nsync=(0 if i % 4 == 1 else None)))
         # many input-free Async providers at once (the scheduler's queues and pool counts beyond small sizes)
-        for i in range(14 if quick else 80):
+        for i in range(14 if quick else 36):
             out.append(ds.wide_decl(rng, 'w%04d' % i, width=rng.randint(8, 11), sync_root=(i % 2 == 0), p_root=rng.choice([0.0, 0.0, 0.15, 0.3]),
                                     njoin=rng.choice([0, 2, 3, 4, 5]), nleaf=rng.choice([0, 1, 2, 3])))
         # the same in declaration order: k sources, joins of consecutive pairs, synchronous leaves, one consumer of everything
-        for k, (wd, nj, nl) in enumerate([(8, 3, 2), (9, 2, 1), (10, 4, 2)] if quick else [(a_, b_, c_) for a_ in (8, 9, 10, 11) for b_ in (2, 3, 4) for c_ in (0, 1, 2)]):
+        for k, (wd, nj, nl) in enumerate([(8, 3, 2), (9, 2, 1), (10, 4, 2)] if quick else [(a_, b_, c_) for a_ in (8, 9, 10) for b_ in (2, 3, 4) for c_ in (1, 2)]):
             d_ = ds.wide_decl(rng, 'o%04d' % k, width=wd, sync_root=True, p_root=0.0, njoin=nj, nleaf=nl, ordered=True)
             for p_ in d_['providers'][1:wd + 1]:
                 p_['async'] = True
@@ -132,7 +132,7 @@ def batch(prop, tier, sd):
     else:  # C06, C07, C08: fault modes
         for i in range(18 if quick else 120):
             out.append(ds.sources_decl(rng, 's%04d' % i, p_fallible=0.6, nsync=(0 if i % 2 == 1 else None)))
-        for i in range(2 if quick else 12):
+        for i in range(2 if quick else 6):
             out.append(ds.wide_decl(rng, 'w%04d' % i, width=rng.randint(10, 13), p_fallible=0.3, sync_root=(i % 2 == 0)))
         ex = ds.exhaustive_small(3, with_fallible=False)
         ex = [d for d in ex if any(p['async'] for p in d['providers'])]
@@ -354,7 +354,10 @@ def run(prop, tier, sd, rep, clauses, modes):
 
             # ---- B2: real executions -------------------------------------------------------------------------------
             jobs = [(i, g) for i in ok for g in gmps]
-            results = pl.pmap(lambda j: pl.run_driver(root, pkg[j[0]], modes=modes, maxruns=maxruns, seed=sd, gomaxprocs=j[1],
+            def runs_for(i_):
+                # wide declarations: every execution passes a dozen gates; a capped, seeded walk is enough for them
+                return min(maxruns, 150) if len(byid[i_]['providers']) >= 10 else maxruns
+            results = pl.pmap(lambda j: pl.run_driver(root, pkg[j[0]], modes=modes, maxruns=runs_for(j[0]), seed=sd, gomaxprocs=j[1],
                                                       timeout=900, decl=j[0]), jobs)
             trace_parts = []
             nexec = 0
